@@ -512,7 +512,9 @@ def run(repo: Repo, rep: Report, tier: str) -> None:
         n17 += 1
         rep.check(want == got, "C15-R17", "lower_mem_decl: the re-declaration probe uses the creation node's id", "".join(got) if want == got else
                   f"probes `{''.join(got)}`, the node is stored under `{''.join(want)}`: the probe never matches, every expansion after the first shares the first one's cell", lmd.loc(p17))
-    rep.floor("C15-R17", "re-declaration probes in lower_mem_decl", n17, 1)
+    if n17 == 0:
+        # no probe at all: whether expansions get cells of their own is then decided by the id's derivation alone (C15-R3, C16-R4); nothing to compare here
+        rep.ok("C15-R17", "lower_mem_decl: no re-declaration probe to check", "freshness does not go through the builder's index", lmd.loc(), nontrivial=False)
 
     # ---------------- R18 --------------------------------------------------------------
     _borrow15(repo, rep, "C01", "C01-R10", "C15-R18", "an int argument (or a constant bound to a Signal parameter) reaches `cond : param` in the body as a literal: the gate then outputs that "
